@@ -224,6 +224,28 @@ func cmdCheck(args []string) int {
 			knownList = append(knownList, line)
 		}
 	}
+	// repaired defects that no obligation expresses (status fixed, obligation `replay-only:`): the replay is run on every
+	// run; if the recorded input fails again on the real code the defect has returned - a violation (a test that cannot
+	// be built or times out is reported as undecided, not as a violation)
+	for _, kf := range findings.Findings {
+		if kf.Property != prop || kf.Status != "fixed" || !strings.HasPrefix(kf.Obligation, "replay-only:") || kf.Replay == "" {
+			continue
+		}
+		confirmed, out := runKnownReplay(cfg, kf.Replay)
+		if !confirmed {
+			continue
+		}
+		if !strings.Contains(out, "--- FAIL") {
+			fmt.Printf("UNDECIDED: replay of the repaired finding %s could not be run: %s\n", kf.Obligation, truncate(out, 300))
+			continue
+		}
+		dir := filepath.Join(cfg.Verif, "replays")
+		_ = os.MkdirAll(dir, 0o755)
+		path := filepath.Join(dir, fmt.Sprintf("%s-%s.json", prop, oblHash(kf.Obligation)))
+		d, _ := json.MarshalIndent(map[string]any{"property": prop, "obligation": kf.Obligation, "what": kf.What, "replay": kf.Replay, "output": truncate(out, 8000), "replayed_on_real_code": true}, "", " ")
+		_ = os.WriteFile(path, d, 0o644)
+		violations = append(violations, fmt.Sprintf("VIOLATION property=%s replay=%s obligation=%s (a repaired defect has returned) replayed-on-real-code", prop, path, kf.Obligation))
+	}
 	// bounded stand-ins registered for this property
 	var bounded []map[string]any
 	bviol := runBounded(cfg, prop, tier, &bounded)
